@@ -178,6 +178,53 @@ pub fn run_case(c: &Case, r: &mut Report) {
     r.sample(json!({"config": tag, "builds": n, "threads": c.threads, "distinct_nonces": seen.len(), "distinct_tokens": tokset.len(), "max_bit_deviation": worst, "bit_bound": bound, "min_distinct_per_byte": min_distinct, "first_nonces": nonces.iter().take(3).map(|x| util::hex(x)).collect::<Vec<_>>()}));
 }
 
+/// Fault injection (hook `verif::set_rng_fault`): while the system RNG "fails", no local builder may hand out a token —
+/// a token produced then cannot carry a fresh nonce (e.g. a fallback to a default/zero nonce).  After the fault is
+/// cleared the same builder must work again and produce distinct nonces.
+pub fn rng_fault(r: &mut Report) {
+    let key = KeyMat::sym(*b"wubbalubbadubdubwubbalubbadubdub");
+    for &p in &LOCALS {
+        for layer in [Layer::Generic, Layer::Batteries] {
+            let c = Case { p, layer, reuse: false, n: 8, threads: 1 };
+            let tag = format!("{}/{}", p.name(), layer.name());
+            rusty_paseto::verif::set_rng_fault(true);
+            let during = build_many(&c, &key, 8);
+            let c2 = Case { reuse: true, ..c.clone() };
+            let during_reuse = build_many(&c2, &key, 8);
+            rusty_paseto::verif::set_rng_fault(false);
+            let after = build_many(&c, &key, 8);
+            r.evaluations += (during.len() + during_reuse.len() + after.len()) as u64;
+            let replay = json!({"cmd": "C10", "note": "RNG fault-injection case: re-run the check", "protocol": p.name(), "layer": layer.name()});
+            let leaked: Vec<&Out<String>> = during.iter().chain(during_reuse.iter()).filter(|o| !o.is_err()).collect();
+            if !leaked.is_empty() {
+                let nonce = leaked[0].ok().and_then(|t| crate::c03::parts(p, t)).map(|x| util::hex(&x.payload[..p.nonce_len().min(x.payload.len())])).unwrap_or_default();
+                r.violation(
+                    format!("C10 token-produced-while-rng-fails {}", tag),
+                    format!("{}: with the system RNG failing, {} of {} builds still returned {} (nonce field of the first: {})", tag, leaked.len(), during.len() + during_reuse.len(), leaked[0].class(), nonce),
+                    replay,
+                );
+            } else {
+                r.count(&format!("{} rng-fault: every build failed closed", tag));
+                for o in during.iter().take(1) {
+                    r.see("error variants while the RNG fails", o.err().unwrap_or("?"));
+                }
+            }
+            let ok_after: Vec<&String> = after.iter().filter_map(|o| o.ok()).collect();
+            let distinct: HashSet<&&String> = ok_after.iter().collect();
+            if ok_after.len() != after.len() || distinct.len() != ok_after.len() {
+                r.violation(
+                    format!("C10 builder-broken-after-rng-fault {}", tag),
+                    format!("{}: after the RNG fault was cleared {} of {} builds succeeded with {} distinct tokens", tag, ok_after.len(), after.len(), distinct.len()),
+                    json!({"cmd": "C10", "note": "RNG fault-injection case: re-run the check", "protocol": p.name(), "layer": layer.name()}),
+                );
+            } else {
+                r.count(&format!("{} rng-fault: builds recover afterwards", tag));
+                r.distinct(format!("{}|rng-fault", tag));
+            }
+        }
+    }
+}
+
 pub fn cases(tier: &str) -> Vec<Case> {
     let thorough = tier == "thorough";
     let mut v = Vec::new();
@@ -201,11 +248,13 @@ pub fn run(tier: &str, _seed: u64) -> Report {
     for c in cases(tier) {
         run_case(&c, &mut r);
     }
+    rng_fault(&mut r);
     for &p in &LOCALS {
         for l in ["generic", "batteries"] {
             for m in ["one-builder", "fresh-builder"] {
                 r.require(&format!("{}/{}/{} all-distinct", p.name(), l, m), 1);
             }
+            r.require(&format!("{}/{} rng-fault: every build failed closed", p.name(), l), 1);
         }
     }
     r
@@ -220,4 +269,4 @@ pub fn replay(case: &Value) -> Report {
     r
 }
 
-pub const RULE: &str = "one case = a history of N builds (quick N=4096; thorough additionally N=102400 and N=1024000 built concurrently from 16 threads) under one key with IDENTICAL claims, footer and assertion, for v1-v4 local x {GenericBuilder, PasetoBuilder with exp/iat/nbf pinned} x {fresh builder per build, one builder reused}; the nonce field of every token is extracted (32 bytes, v2: 24). Monitors: pairwise-distinct nonces and tokens, per-bit one-frequency within N/2 +- 5.3*sqrt(N), no constant byte position; the whole run is executed in two separate processes and the first 64 nonces of every history are compared across processes (fixed-seed PRNG). distinct_nontrivial = distinct (version, layer, builder mode, N, threads) histories that built >= 1000 tokens";
+pub const RULE: &str = "one case = a history of N builds (quick N=4096; thorough additionally N=102400 and N=1024000 built concurrently from 16 threads) under one key with IDENTICAL claims, footer and assertion, for v1-v4 local x {GenericBuilder, PasetoBuilder with exp/iat/nbf pinned} x {fresh builder per build, one builder reused}; the nonce field of every token is extracted (32 bytes, v2: 24). Monitors: pairwise-distinct nonces and tokens, per-bit one-frequency within N/2 +- 5.3*sqrt(N), no constant byte position; the whole run is executed in two separate processes and the first 64 nonces of every history are compared across processes (fixed-seed PRNG). Fault injection through the hook verif::set_rng_fault: while the system RNG fails every build must fail (no token, hence no stale/default nonce), and succeed again with distinct tokens once the fault is cleared. distinct_nontrivial = distinct (version, layer, builder mode, N, threads) histories that built >= 1000 tokens";
